@@ -51,6 +51,10 @@ Fixpoint diverge (a b : str) : bool :=
   | _, _ => false
   end.
 
+(* kw occurs nowhere in text *)
+Definition no_occ (kw text : str) : bool :=
+  forallb (fun n => negb (starts kw (drop n text))) (seq 0 (S (length text))).
+
 Section RenderSent.
   Variable E : efmt.
 
